@@ -544,7 +544,16 @@ fn run_loop_case(reds: &[RCfg], n_subs: usize, cap: usize, actions: &[Ac]) -> Op
     for i in 0..n_subs {
         exp.push(Ev::Unsub(i));
     }
-    let got: Vec<Ev> = log.lock().unwrap().clone();
+    let mut got: Vec<Ev> = log.lock().unwrap().clone();
+    {
+        // the order in which the subscribers are released at shutdown is not part of any property: compare the
+        // trailing run of release events as a set
+        let mut cut = got.len();
+        while cut > 0 && matches!(got[cut - 1], Ev::Unsub(_)) {
+            cut -= 1;
+        }
+        got[cut..].sort_by_key(|e| if let Ev::Unsub(i) = e { *i } else { 0 });
+    }
     if all_d || all_k {
         if got != exp {
             let reduces_ok = got.iter().filter(|e| matches!(e, Ev::Reduce(..))).eq(exp.iter().filter(|e| matches!(e, Ev::Reduce(..))));
@@ -1162,7 +1171,152 @@ fn run_block_case(entry: char, cap: usize) -> Option<(String, String, String)> {
     }
     None
 }
+// close() racing with a late dispatch while the queue is full and the reducer is parked (BlockOnFull):
+// every dispatch that returned Ok must be reduced (C05 lossless, C04: nothing is accepted behind the Exit marker)
+fn run_block_closerace(cap: usize) -> Option<(String, String, String)> {
+    use std::sync::mpsc;
+    let (gate_tx, gate_rx) = mpsc::channel::<()>();
+    let gate_rx = Arc::new(Mutex::new(gate_rx));
+    let (entered_tx, entered_rx) = mpsc::channel::<()>();
+    let entered_tx = Mutex::new(entered_tx);
+    let reduced: Arc<Mutex<Vec<Ac>>> = Arc::new(Mutex::new(vec![]));
+    let r2 = reduced.clone();
+    let g2 = gate_rx.clone();
+    let store = StoreBuilder::<St, Ac>::new(0)
+        .with_capacity(cap)
+        .with_reducer(Box::new(crate::reducer::FnReducer::from(move |s: &St, a: &Ac| {
+            if *a == 0 {
+                let _ = entered_tx.lock().unwrap().send(());
+                let _ = g2.lock().unwrap().recv_timeout(Duration::from_secs(10));
+            }
+            r2.lock().unwrap().push(*a);
+            DispatchOp::Dispatch(mix(*s, *a, 0), None)
+        })))
+        .build()
+        .unwrap();
+    if store.dispatch(0).is_err() || entered_rx.recv_timeout(Duration::from_secs(10)).is_err() {
+        let _ = gate_tx.send(());
+        store.stop();
+        return None;
+    }
+    for a in 1..=cap as Ac {
+        let _ = store.dispatch(a);
+    }
+    let s1 = store.clone();
+    let closer = std::thread::spawn(move || s1.close());
+    std::thread::sleep(Duration::from_millis(300));
+    let s2 = store.clone();
+    let late = std::thread::spawn(move || s2.dispatch(1000).is_ok());
+    std::thread::sleep(Duration::from_millis(300));
+    let _ = gate_tx.send(());
+    let _ = closer.join();
+    let late_ok = late.join().unwrap_or(false);
+    store.stop();
+    let got = reduced.lock().unwrap().clone();
+    let mut exp: Vec<Ac> = (0..=cap as Ac).collect();
+    if late_ok {
+        exp.push(1000);
+    }
+    let mut got_sorted = got.clone();
+    got_sorted.sort();
+    if got_sorted != exp {
+        return Some(("O-C05-send-block-lossless".into(), format!("every dispatch that returned Ok is reduced once: {:?} (late dispatch returned {})", exp, if late_ok { "Ok" } else { "Err" }), format!("{:?}", got)));
+    }
+    None
+}
+// a dispatch through the `Store` trait from inside a subscriber callback (the reducer context, a pool thread), with
+// every pool worker busy: once it has returned Ok the action is in the queue, so an action dispatched afterwards by
+// another thread is reduced after it (C02: real-time order, every entry point)
+fn run_block_reentrant() -> Option<(String, String, String)> {
+    use crate::store::Store;
+    use std::sync::mpsc;
+    use std::sync::Condvar;
+    struct Re {
+        store: Mutex<Option<std::sync::Weak<StoreImpl<St, Ac>>>>,
+        done: Mutex<mpsc::Sender<bool>>,
+    }
+    impl Subscriber<St, Ac> for Re {
+        fn on_notify(&self, _s: &St, a: &Ac) {
+            if *a == 0 {
+                let st = self.store.lock().unwrap().as_ref().and_then(|w| w.upgrade());
+                if let Some(st) = st {
+                    let ok = <StoreImpl<St, Ac> as Store<St, Ac>>::dispatch(&*st, 1).is_ok();
+                    let _ = self.done.lock().unwrap().send(ok);
+                }
+            }
+        }
+    }
+    let reduced: Arc<Mutex<Vec<Ac>>> = Arc::new(Mutex::new(vec![]));
+    let r2 = reduced.clone();
+    let store = StoreBuilder::<St, Ac>::new(0)
+        .with_capacity(16)
+        .with_reducer(Box::new(crate::reducer::FnReducer::from(move |s: &St, a: &Ac| {
+            r2.lock().unwrap().push(*a);
+            DispatchOp::Dispatch(mix(*s, *a, 0), None)
+        })))
+        .build()
+        .unwrap();
+    let (done_tx, done_rx) = mpsc::channel::<bool>();
+    let re = Arc::new(Re { store: Mutex::new(Some(Arc::downgrade(&store))), done: Mutex::new(done_tx) });
+    let _h = store.add_subscriber(re.clone());
+    // keep every other pool worker busy until the gate opens
+    let gate = Arc::new((Mutex::new(false), Condvar::new()));
+    for _ in 0..2048 {
+        let g = gate.clone();
+        <Arc<StoreImpl<St, Ac>> as Dispatcher<Ac>>::dispatch_task(&store, Box::new(move || {
+            let (m, cv) = &*g;
+            let mut open = m.lock().unwrap();
+            while !*open {
+                let (o, _) = cv.wait_timeout(open, Duration::from_secs(20)).unwrap();
+                open = o;
+                if !*open {
+                    break;
+                }
+            }
+        }));
+    }
+    let open_gate = |gate: &Arc<(Mutex<bool>, Condvar)>| {
+        let (m, cv) = &**gate;
+        *m.lock().unwrap() = true;
+        cv.notify_all();
+    };
+    let _ = store.dispatch(0);
+    let inner_ok = match done_rx.recv_timeout(Duration::from_secs(10)) {
+        Ok(ok) => ok,
+        Err(_) => {
+            open_gate(&gate);
+            store.stop();
+            return None; // the callback did not get that far within the time limit: no verdict
+        }
+    };
+    // dispatch(1) has returned; now a later dispatch from this thread
+    let _ = store.dispatch(2);
+    let t0 = Instant::now();
+    while !reduced.lock().unwrap().contains(&2) && t0.elapsed() < Duration::from_secs(5) {
+        std::thread::sleep(Duration::from_millis(10));
+    }
+    open_gate(&gate);
+    let t1 = Instant::now();
+    while reduced.lock().unwrap().len() < 3 && t1.elapsed() < Duration::from_secs(5) {
+        std::thread::sleep(Duration::from_millis(10));
+    }
+    *re.store.lock().unwrap() = None;
+    store.stop();
+    let got = reduced.lock().unwrap().clone();
+    if inner_ok && got != vec![0, 1, 2] {
+        return Some(("O-C02-store-dispatch-open".into(), "Store::dispatch(1) from a subscriber callback returned Ok before another thread dispatched 2: reduce order [0, 1, 2]".into(), format!("{:?}", got)));
+    }
+    None
+}
 fn suite_block() -> Option<String> {
+    if let Some((ob, exp, got)) = run_block_reentrant() {
+        return Some(found("block", &ob, "block reentrant".to_string(), exp, got));
+    }
+    for cap in [1usize, 2] {
+        if let Some((ob, exp, got)) = run_block_closerace(cap) {
+            return Some(found("block", &ob, format!("block closerace cap={}", cap), exp, got));
+        }
+    }
     for entry in ['i', 't'] {
         for cap in [1usize, 2] {
             if let Some((ob, exp, got)) = run_block_case(entry, cap) {
@@ -1173,6 +1327,13 @@ fn suite_block() -> Option<String> {
     None
 }
 fn replay_block(case: &str) -> Option<String> {
+    if case.contains("reentrant") {
+        return run_block_reentrant().map(|(ob, exp, got)| found("block", &ob, case.to_string(), exp, got));
+    }
+    if case.contains("closerace") {
+        let cap: usize = case.split_whitespace().find_map(|t| t.strip_prefix("cap=")).unwrap_or("1").parse().unwrap();
+        return run_block_closerace(cap).map(|(ob, exp, got)| found("block", &ob, case.to_string(), exp, got));
+    }
     let (mut e, mut cap) = ('i', 1);
     for tok in case.split_whitespace() {
         if let Some(v) = tok.strip_prefix("entry=") {
